@@ -232,9 +232,19 @@ pub fn gen_c01(run: &mut Run, seed: u64, thorough: bool) {
         let wclass = if sc % 5 == 3 { 2 } else { g.rng.below(2) };
         let tclass = g.rng.below(4);
         // retention settings include "keep forever" (u64::MAX) and its neighbour
-        let retention = match sc % 7 { 5 => u64::MAX, 6 => u64::MAX - 1, _ => g.rng.below(4) };
+        let retention = match sc % 9 { 5 => u64::MAX, 6 => u64::MAX - 1, 7 => 1u64 << 32, 8 => (1u64 << 32) + 1, _ => g.rng.below(4) };
         let first = g.mk_set(n, wclass, tclass);
-        g.new_gateway(&format!("c01-{sc}"), vec![first.clone()], retention, 0);
+        // some gateways are constructed with SEVERAL initial sets (the last one is the live one; earlier ones age like rotated ones)
+        let mut init: Vec<WS> = vec![];
+        if sc % 3 == 1 {
+            for _ in 0..g.rng.range(1, 2) {
+                let k = g.rng.range(1, 3) as usize;
+                init.push(g.mk_set(k, 0, 2));
+            }
+        }
+        init.push(first.clone());
+        g.new_gateway(&format!("c01-{sc}"), init, retention, 0);
+        g.run.op("gw.epoch", "q");
         // history: 0..3 rotations so that `signing` may be latest / retained / expired
         let rotations = g.rng.below(4);
         for _ in 0..rotations {
@@ -710,7 +720,6 @@ fn malformed_sets(g: &mut G) -> Vec<(WS, &'static str)> {
     // smallest non-zero key is fine
     let mut one = [0u8; 32];
     one[31] = 1;
-    out.push((WS { signers: vec![(one, 1), (ks[0], 1)], threshold: 1, nonce: base.nonce }, "key-one-ok"));
     // zero weight
     out.push((WS { signers: vec![(ks[0], 1), (ks[1], 0), (ks[2], 1)], threshold: 1, nonce: base.nonce }, "zero-weight"));
     out.push((WS { signers: vec![(ks[0], 0)], threshold: 0, nonce: base.nonce }, "zero-weight-zero-thr"));
@@ -724,6 +733,9 @@ fn malformed_sets(g: &mut G) -> Vec<(WS, &'static str)> {
     out.push((WS { signers: vec![(ks[0], 3), (ks[1], 4)], threshold: 7, nonce: base.nonce }, "thr-total-ok"));
     out.push((WS { signers: vec![(ks[0], 3), (ks[1], 4)], threshold: 8, nonce: base.nonce }, "thr-total+1"));
     out.push((WS { signers: vec![(ks[0], 3)], threshold: 3, nonce: base.nonce }, "single-ok"));
+    // LAST, because nobody can sign for the key 0x00…01: once this well-formed set is installed as the latest set, no later
+    // candidate could be authorised by a non-bypass rotation any more
+    out.push((WS { signers: vec![(one, 1), (ks[0], 1)], threshold: 1, nonce: base.nonce }, "key-one-ok"));
     out
 }
 
@@ -751,6 +763,28 @@ pub fn gen_c03(run: &mut Run, seed: u64, thorough: bool) {
             let pf = g.honest(&latest, &cand.rotation_data_hash(&g.env));
             g.rotate(&cand, &pf, false, &AuthSpec::None, "cand-repeat");
             g.q_auth_state(&[]);
+        }
+        // a FRESH gateway for the proof variants: one of the well-formed candidates above (`key-one-ok`) has a key nobody can
+        // sign for, so after that loop the latest set of the first gateway cannot authorise anything any more
+        {
+            let a0 = g.mk_set(2, 0, 2);
+            let a1 = g.mk_set(3, 0, 2);
+            let a2 = g.mk_set(2, 0, 2);
+            g.new_gateway(&format!("c03-proofs-{r}"), vec![a0, a1], retention.max(1), 0);
+            g.rotate_honest(&a2, "history-rotation");
+            g.q_auth_state(&[]);
+        }
+        // rotation proofs by SUBSETS of the latest set (a 3-signer set with weights 5,5,1 and threshold 10 is installed before
+        // each attempt): unsigned entries before a signed one, signed weight below / at / above the threshold
+        for mask in 0..8u32 {
+            let idx: Vec<usize> = (0..3).collect();
+            let wset = g.mk_set_from(&idx, &[5, 5, 1], 10);
+            g.rotate_honest(&wset, "install-weighted-set");
+            let cand = g.mk_set(2, 0, 2);
+            let d = g.signers_digest(&wset, &cand.rotation_data_hash(&g.env));
+            let pf = g.proof(&wset, &d, &subsets_modes(3, mask));
+            g.rotate(&cand, &pf, false, &AuthSpec::None, &format!("proof-subset-mask{mask}"));
+            g.q_auth_state(&[cand.hash(&g.env)]);
         }
         // proofs of every kind for a good candidate
         for kind in 0..13 {
@@ -861,7 +895,7 @@ pub fn gen_c03(run: &mut Run, seed: u64, thorough: bool) {
 // ------------------------------------------------------------------------------------------------
 pub fn gen_c08(run: &mut Run, seed: u64, thorough: bool) {
     let mut g = G::new(run, seed);
-    let retentions: Vec<u64> = if thorough { vec![0, 1, 2, 3, 5, 10, 1000, u64::MAX - 1, u64::MAX] } else { vec![0, 1, 2, 3, 10, u64::MAX - 1, u64::MAX] };
+    let retentions: Vec<u64> = if thorough { vec![0, 1, 2, 3, 5, 10, 1000, 1 << 32, (1 << 32) + 1, u64::MAX - 1, u64::MAX] } else { vec![0, 1, 2, 3, 10, 1 << 32, (1 << 32) + 1, u64::MAX - 1, u64::MAX] };
     let mut sc = 0;
     for &ret in &retentions {
         for ninit in 1..=3usize {
